@@ -2217,6 +2217,14 @@ EGLPNUM_TYPENAME_QSLIB_INTERFACE int EGLPNUM_TYPENAME_QSget_binv_row (
 		rval = 1;
 		goto CLEANUP;
 	}
+	if (p->factorok == 0)
+	{
+		/* e.g. after QSexact_solver or QSload_basis: there is a solution but the
+		 * rational simplex holds no factorization of the current basis */
+		QSlog("no current basis factorization in EGLPNUM_TYPENAME_QSget_binv_row");
+		rval = 1;
+		goto CLEANUP;
+	}
 
 	rval = EGLPNUM_TYPENAME_ILLlib_tableau (p->lp, indx, binvrow, 0);
 	CHECKRVALG (rval, CLEANUP);
@@ -2242,6 +2250,14 @@ EGLPNUM_TYPENAME_QSLIB_INTERFACE int EGLPNUM_TYPENAME_QSget_tableau_row (
 		rval = 1;
 		goto CLEANUP;
 	}
+	if (p->factorok == 0)
+	{
+		/* e.g. after QSexact_solver or QSload_basis: there is a solution but the
+		 * rational simplex holds no factorization of the current basis */
+		QSlog("no current basis factorization in EGLPNUM_TYPENAME_QSget_tableau_row");
+		rval = 1;
+		goto CLEANUP;
+	}
 
 	rval = EGLPNUM_TYPENAME_ILLlib_tableau (p->lp, indx, 0, tableaurow);
 	CHECKRVALG (rval, CLEANUP);
@@ -2263,6 +2279,14 @@ EGLPNUM_TYPENAME_QSLIB_INTERFACE int EGLPNUM_TYPENAME_QSget_basis_order (
 	if (p->cache == 0)
 	{
 		QSlog("LP has not been optimized in EGLPNUM_TYPENAME_QSget_basis_order");
+		rval = 1;
+		goto CLEANUP;
+	}
+	if (p->factorok == 0)
+	{
+		/* e.g. after QSexact_solver or QSload_basis: there is a solution but the
+		 * rational simplex holds no factorization of the current basis */
+		QSlog("no current basis factorization in EGLPNUM_TYPENAME_QSget_basis_order");
 		rval = 1;
 		goto CLEANUP;
 	}
